@@ -179,6 +179,8 @@ def m_x_Attribute(self, st, n, k):
                 return k(st, st.ghost['env.dont_write_bytecode'])
             if q == 'sys.byteorder':
                 return k(st, VStr(z3.String('sys_byteorder')))
+            if q == 're.DEBUG':
+                return k(st, VInt(z3.Int('re_DEBUG')))
             if q == 'struct.error':
                 return k(st, VFunc('class', 'StructError'))
             if q == 'Bits.ByteBoundaryError':
@@ -834,6 +836,8 @@ def m_empty_kw(self):
 
 
 def m_call_contract(self, st, c, pos, kws, kwstar, k, site=''):
+    if self.cur is not None and c.name in getattr(self.cur, 'callee_variants', {}):
+        c = self.contracts[self.cur.callee_variants[c.name]]
     self.pending_pre = []
     env = self.bind_args(c, pos, kws, kwstar)
     for g, text in self.pending_pre:
@@ -847,9 +851,14 @@ def m_call_contract(self, st, c, pos, kws, kwstar, k, site=''):
         e2.update({'arg_' + p: v for p, v in env.items()})
         self.add_obligation(st, 'assert@call', 'at call of %s: %s' % (short(c.name), clause[:60]),
                             self.spec_goal(st, clause, e2, old=self.fn_pre), clause)
+    post_effects = {}
     for g, expr in (self.cur.call_effects.get(short(c.name), {}) if self.cur is not None else {}).items():
+        if _re.search(r'\bresult\b', expr):
+            post_effects[g] = expr       # mentions the callee's result: performed after the call (normal outcome)
+            continue
         e3 = dict(self.fn_env)
         e3.update({gg: v for gg, v in st.ghost.items() if isinstance(v, V)})
+        e3.update({'arg_' + p: v for p, v in env.items()})
         st.ghost[g] = self.spec(st, expr, e3)
     # a dynamically typed argument for a typed parameter: its type is an obligation
     for p, kind in c.params.items():
@@ -936,6 +945,11 @@ def m_call_contract(self, st, c, pos, kws, kwstar, k, site=''):
             break
         s3.assume(g)
     if ok:
+        for g, expr in post_effects.items():
+            e4 = dict(self.fn_env)
+            e4.update({gg: v for gg, v in s3.ghost.items() if isinstance(v, V)})
+            e4['result'] = res
+            s3.ghost[g] = self.spec(s3, expr, e4)
         k(s3, res)
 
 
@@ -1651,9 +1665,30 @@ def m_bi_max(self, st, pos, kws, k):
     return self.with_raises(st, [(z3.Or(ca, cb), 'TypeError')], lambda st: k(st, VInt(z3.If(a >= b, a, b))))
 
 
+def m_bi_re_compile(self, st, pos, kws, k):
+    """re.compile(pattern, flags): a regex object whose .pattern is the given text; an invalid pattern text raises
+    (re.error) - whether a text is a valid pattern is opaque"""
+    b, bad = self.as_bytes(pos[0])
+    if 'regex' not in self.axiom_sets:
+        self.axiom_sets.append('regex')
+    compiled = z3.Function('re_compiled', T.Bytes, T.I)
+    valid = z3.Function('re_valid', T.Bytes, T.B)
+
+    def cont(st):
+        o = compiled(b)
+        st.assume(z3.And(z3.Function('obj_is_regex', T.I, T.B)(o), T.rx_pattern(o) == b))
+        return k(st, VDyn(T.Val.VO(o)))
+    return self.with_raises(st, [(bad, 'TypeError'), (z3.Not(valid(b)), 'OtherException*')], cont)
+
+
+def m_bi_re_DEBUG(self, st, pos, kws, k):
+    raise Untranslated('re.DEBUG is a constant')
+
+
 def m_bi_re_escape(self, st, pos, kws, k):
     f = z3.Function('re_escape', T.Bytes, T.Bytes)
-    return k(st, VBytes(f(pos[0].z)))
+    b, bad = self.as_bytes(pos[0])
+    return self.with_raises(st, [(bad, 'TypeError')], lambda st: k(st, VBytes(f(b))))
 
 
 def m_bi_copy_deepcopy(self, st, pos, kws, k):
